@@ -286,3 +286,4 @@ package vm
 //@ ensures[C01.frame.locals.fresh] f.localsCount > DefaultFrameLocals ==> fresh(f.extendedLocals) && len(f.extendedLocals) == int(f.localsCount) && same(f.locals, f.extendedLocals) && forall(k, 0, len(f.locals), f.locals[k] == nil)
 //@ ensures[C01.frame.locals.inline] f.localsCount <= DefaultFrameLocals ==> len(f.extendedLocals) == 0 && cap(f.extendedLocals) == 0
 //@ ensures[C01.frame.captured.reset] len(f.capturedLocals) == 0 && cap(f.capturedLocals) == 0
+
